@@ -47,12 +47,12 @@ class ScopedDict(Generic[_Key, _Value]):
     def get(self, key: _Key, default: _Value) -> _Value: ...
 
     def get(self, key: _Key, default: _Value | None = None) -> _Value | None:
-        local = self._local_scope.get(key)
-        if local is not None:
-            return local
-        if self.parent is None:
-            return default
-        return self.parent.get(key, default)
+        cur: ScopedDict[_Key, _Value] | None = self
+        while cur is not None:
+            if key in cur._local_scope:
+                return cur._local_scope[key]
+            cur = cur.parent
+        return default
 
     def __getitem__(self, key: _Key) -> _Value:
         """
